@@ -27,9 +27,32 @@ ARITH = [r"arith\..*"]
 G_STEP = [r"geonum\.(dual|undual|negate|differentiate|integrate|increment_blade|decrement_blade|copy_blade|base_angle)",
           r"angle\.(dual|undual|negate|conjugate|base_angle|grade|is_scalar|is_vector|is_bivector|is_trivector|grade_angle|is_opposite|blade|rem)"]
 
+G_ALL_CORE = [r"angle\..*", r"geonum\..*", r"coll\..*"]
+TRAITS = [r"affine\..*", r"projection\..*", r"optics\..*", r"em\..*", r"waves\..*", r"ml\..*", r"core\.epsilon"]
+G_ADD = [r"geonum\.add\..*", r"geonum\.sub\..*", r"geonum\.negate", r"affine\.translate", r"angle\.eq"]
+
 PROPS = {
+    "C01": {"cone": G_ALL_CORE + ARITH, "lines": 260000, "hist": 100, "oracle_cases": 40000},
+    "C02": {"cone": A_NEW + [r"geonum\.new.*", r"geonum\.create_dimension", r"geonum\.scalar"] + ARITH, "lines": 150000, "oracle_cases": 60000},
     "C03": {"cone": A_ADD + ARITH, "lines": 150000, "oracle_cases": 90000},
     "C04": {"cone": A_SUB + ARITH, "lines": 150000, "oracle_cases": 90000},
+    "C05": {"cone": [r"geonum\.mul\..*", r"geonum\.div\..*", r"geonum\.(div|inv|normalize|scale|scalar|pow)", r"geonum\.angle_mul\..*", r"geonum\.angle_add\..*"] + A_ADD + ARITH,
+            "lines": 150000, "oracle_cases": 60000},
+    "C06": {"cone": G_ADD + [r"angle\.new_with_blade", r"angle\.grade_angle"] + A_ADD + ARITH, "lines": 150000, "oracle_cases": 50000},
     "C07": {"cone": G_STEP + A_ADD + A_SUB + [r"geonum\.(mul|div)\.vv", r"geonum\.rotate"] + ARITH, "lines": 150000,
             "hist": 150, "oracle_cases": 60000},
+    "C08": {"cone": [r"geonum\.(dot|wedge|meet|project|reject|project_to_dimension|distance_to|is_orthogonal|cos|sin|dual)", r"angle\.project",
+                     r"angle\.grade_angle", r"geonum\.add\.vv", r"coll\.select_cone"] + A_SUB + A_ADD + ARITH, "lines": 150000, "oracle_cases": 40000},
+    "C09": {"cone": [r"geonum\.(dot|is_orthogonal)", r"angle\.grade_angle"] + A_SUB + ARITH, "lines": 120000, "oracle_cases": 60000},
+    "C10": {"cone": [r"geonum\.(wedge|geo|meet|dot|dual)", r"angle\.grade_angle", r"geonum\.add\.vv"] + A_SUB + A_ADD + ARITH, "lines": 120000, "oracle_cases": 60000},
+    "C11": {"cone": [r"geonum\.(project|reject|project_to_dimension|project_to_angle)", r"angle\.project", r"angle\.grade_angle", r"geonum\.sub\.vv"] + A_SUB + ARITH,
+            "lines": 120000, "oracle_cases": 60000},
+    "C12": {"cone": [r"geonum\.(rotate|reflect|scale_rotate|negate)", r"angle\.(rotate|negate|base_angle)"] + A_ADD + A_SUB + ARITH, "lines": 120000, "oracle_cases": 60000},
+    "C13": {"cone": [r"geonum\.(distance_to|mag_diff|invert_circle|scalar)", r"geonum\.(add|sub)\.vv", r"angle\.grade_angle"] + A_SUB + ARITH, "lines": 120000, "oracle_cases": 50000},
+    "C14": {"cone": [r"geonum\.add\..*", r"angle\.eq", r"angle\.new_with_blade", r"angle\.grade_angle"] + A_ADD + ARITH, "lines": 150000, "oracle_cases": 60000},
+    "C15": {"cone": [r"geonum\.(cos|sin|tan|adj|opp|scale|inv)", r"geonum\.div\.vr", r"angle\.grade_angle"] + ARITH, "lines": 120000, "oracle_cases": 60000},
+    "C16": {"cone": [r"angle\.(eq|cmp|partial_cmp)", r"geonum\.(eq|cmp|partial_cmp|sort)"] + ARITH, "lines": 100000, "oracle_cases": 30000},
+    "C17": {"cone": [r"coll\..*", r"geonum\.(scale|rotate|dot)", r"angle\.project"] + ARITH, "lines": 60000, "oracle_cases": 12000},
+    "C18": {"cone": TRAITS + [r"em\.const\..*"] + ARITH, "lines": 120000, "oracle_cases": 30000},
+    "C19": {"cone": TRAITS + ARITH, "lines": 120000, "oracle_cases": 30000},
 }
